@@ -71,6 +71,9 @@ def generate(seed, tier, idx=0):
             "sized_model": rng.random() < 0.1}
     if case_plain:
         case["plain_stats"] = case_plain
+    if rng.random() < 0.15 and all(sp["kind"] != "persistent" for sp in stats):
+        # (an old persistent would be fed timestamps of the new replication)
+        case["long_lived_producer"] = True
     eids = program.event_ids(prog)
     if prior == "fault":
         al = prog["events"][rng.choice(eids)]
